@@ -216,7 +216,7 @@ class World(object):
                       "k2_sites": {},
                       "own_cells": set(), "pure_cells": set(), "calls": {}, "calls_ok": {}, "call_outcomes": {}, "aliased_results": {}, "kindseq": set(),
                       "nontrivial": 0, "outcomes": {}, "runs": 0, "buffer_checks": 0, "object_checks": 0,
-                      "repeat_checks": 0, "later_repeat_checks": 0, "run_class": {}}
+                      "repeat_checks": 0, "later_repeat_checks": 0, "clean_process_checks": 0, "run_class": {}}
         self.kinds = []
         self.hit = False
         self.tmpdir = None
@@ -720,6 +720,22 @@ class C05(Profile):
                     return out1, dict(base, invariant="I5:repeatable", cls=None, victim=op["f"], victim_kind="result",
                                       what="%s returned a different result when called again (call %d) with the same arguments: %s"
                                            % (op["f"], rep + 2, why), first=out1.brief(), second=out2.brief()), None
+        # I5 against a fresh process (sampled): the same call, with copies of the same arguments, in a process that has
+        # executed nothing else, gives the same outcome -- whatever the library keeps at module level must not matter
+        if (step * 7 + len(op["f"])) % 40 == 0 and not TABLE[op["f"]]["path"].startswith(("io:", "method:")) \
+                and op["f"] not in HIDDEN_STATE:
+            from .. import kernel
+            if kernel.CLEAN["server"] is not None:
+                args = capture(lambda: ([self._res(world, a, []) for a in op.get("args", [])],
+                                        {k: self._res(world, v, []) for k, v in op.get("kwargs", {}).items()}))
+                if args.ok:
+                    ref = kernel.clean_reference({"path": TABLE[op["f"]]["path"], "args": args.value[0], "kwargs": args.value[1]})
+                    st["clean_process_checks"] += 1
+                    why = None if (not out1.ok and not ref.ok) else outcomes_agree(out1, ref, 1e-12)
+                    if why:
+                        return out1, dict(base, invariant="I5:same-as-in-a-fresh-process", cls=None, victim=op["f"], victim_kind="result",
+                                          what="%s returns something else here than for the same arguments in a process that has "
+                                               "executed nothing else: %s" % (op["f"], why), here=out1.brief(), fresh=ref.brief()), None
         # I5 across the history: the same call on the same inputs (same buffers bit for bit, same object values,
         # dt and settings) issued again later -- typically after reads that filled caches -- gives the same outcome
         key = self._call_key(world, op)
@@ -739,6 +755,13 @@ class C05(Profile):
                                            "arguments (arrays, object values, dt, settings) are unchanged: %s" % (op["f"], why),
                                       first=first.brief(), second=out1.brief()), None
         return out1, None, None
+
+    def clean_handler(self, req):
+        import warnings as _w
+        with _w.catch_warnings():
+            _w.simplefilter("ignore")
+            with np.errstate(all="ignore"):
+                return capture(lambda: self._fn(req["path"])(*req["args"], **req["kwargs"]))
 
     def _observables(self, obj):
         try:
@@ -938,6 +961,7 @@ class C05(Profile):
             "object_comparisons": agg.get("object_checks", 0),
             "repeat_call_comparisons": agg.get("repeat_checks", 0),
             "later_repeat_call_comparisons": agg.get("later_repeat_checks", 0),
+            "comparisons_with_the_same_call_in_a_fresh_process": agg.get("clean_process_checks", 0),
             "run_classes": agg.get("run_class", {}),
             "sweeps": {"ownership": {"triples": len(SWEEP_OWN), "definition": "source kind x hand-over route x follow-up",
                                      "runs_executed": agg.get("run_class", {}).get("sweep-ownership", 0)},
